@@ -16,6 +16,7 @@ PRE = envstr("VF_PRE", "")   # concrete prefix / suffix: the string under test i
 SUF = envstr("VF_SUF", "")
 KI = envint("VF_KI", 0)          # key index for get_as
 SEP = conf.sidtype_keytype_sep
+ALL_KEYS = sorted({k for ks in conf.key_types.values() for k in ks})
 
 
 def _prefix_ok(sub, sid, i: int) -> bool:
@@ -115,11 +116,12 @@ def untyped(t: str) -> bool:
     if sid:
         return True
     e = Sid()
-    if sid.parent != e or sid.get_as("p") != e or sid.get_as("") != e:
+    k0 = ALL_KEYS[0]
+    if sid.parent != e or sid.get_as(k0) != e or sid.get_as("") != e:
         return fail("untyped-nav")
-    if sid.keytype is not None or sid.basetype is not None or len(sid) != 0 or sid.get("p") is not None:
+    if sid.keytype is not None or sid.basetype is not None or len(sid) != 0 or sid.get(k0) is not None:
         return fail("untyped-attrs")
-    if PRE + t + SUF != "" and sid.get_with(p="h") != e:
+    if PRE + t + SUF != "" and sid.get_with(**{k0: "h"}) != e:
         return fail("untyped-get_with")
     if sid.is_leaf():
         return fail("untyped-leaf")
@@ -136,7 +138,7 @@ def missing_key(t: str, k: str) -> bool:
     sid = Sid(PRE + t + SUF)
     if not sid:
         return True
-    if k in ("p", "t", "n", "q", "o", "ext", "version"):
+    if k in ALL_KEYS:
         return True
     return sid.get_as(k) == Sid() and sid.get(k) is None
 
